@@ -44,6 +44,9 @@ package webdoc
 //@   ensures #rows-kept rowKept(db.document.Elements, old(db.document.Elements)) && rowKept(db.textBuilder.textNodes, old(db.textBuilder.textNodes)) && rowKept(db.actionStack, old(db.actionStack)) && db.document == old(db.document) && db.textBuilder == old(db.textBuilder)
 //@   requires wfBuilder(db)
 //@   ensures wfBuilder(db)
+//@   ensures [C02] #text-then-table len(db.document.Elements) >= old(len(db.document.Elements)) + 1 &&
+//@              forall(i, 0 <= i && i < old(len(db.document.Elements)), db.document.Elements[i] == old(db.document.Elements[i])) &&
+//@              forall(k, old(len(db.document.Elements)) <= k && k < len(db.document.Elements) - 1, typeis(db.document.Elements[k], *Text))
 //@   ensures [C06] #table-carries-page-url typeis(db.document.Elements[len(db.document.Elements)-1], *Table) &&
 //@              as(db.document.Elements[len(db.document.Elements)-1], *Table).PageURL == db.pageURL &&
 //@              as(db.document.Elements[len(db.document.Elements)-1], *Table).Element == table
@@ -53,6 +56,7 @@ package webdoc
 //@   assigns_rows db.document.Elements, db.textBuilder.textNodes, db.actionStack
 //@   fresh_assigns webdoc.Text.*, webdoc.BaseElement.*, webdoc.Table.*, webdoc.ElementAction.*, maps, elems(string), elems(ref), cell(Ref), cell(Slice)
 //@   ensures #rows-kept rowKept(db.document.Elements, old(db.document.Elements)) && rowKept(db.textBuilder.textNodes, old(db.textBuilder.textNodes)) && rowKept(db.actionStack, old(db.actionStack)) && db.document == old(db.document) && db.textBuilder == old(db.textBuilder)
+//@   ensures [C02,C07] #only-text-appended onlyTextAppended(db)
 //@   requires wfBuilder(db)
 //@   ensures wfBuilder(db) && db.flush
 
@@ -61,6 +65,7 @@ package webdoc
 //@   assigns_rows db.document.Elements, db.textBuilder.textNodes, db.actionStack
 //@   fresh_assigns webdoc.Text.*, webdoc.BaseElement.*, webdoc.Table.*, webdoc.ElementAction.*, maps, elems(string), elems(ref), cell(Ref), cell(Slice)
 //@   ensures #rows-kept rowKept(db.document.Elements, old(db.document.Elements)) && rowKept(db.textBuilder.textNodes, old(db.textBuilder.textNodes)) && rowKept(db.actionStack, old(db.actionStack)) && db.document == old(db.document) && db.textBuilder == old(db.textBuilder)
+//@   ensures [C02,C07] #only-text-appended onlyTextAppended(db)
 //@   requires wfBuilder(db) && e != nil
 //@   ensures wfBuilder(db)
 //@   ensures [C03] #start-never-flushes len(db.document.Elements) == old(len(db.document.Elements)) && len(db.actionStack) == old(len(db.actionStack)) + 1
@@ -70,6 +75,7 @@ package webdoc
 //@   assigns_rows db.document.Elements, db.textBuilder.textNodes, db.actionStack
 //@   fresh_assigns webdoc.Text.*, webdoc.BaseElement.*, webdoc.Table.*, webdoc.ElementAction.*, maps, elems(string), elems(ref), cell(Ref), cell(Slice)
 //@   ensures #rows-kept rowKept(db.document.Elements, old(db.document.Elements)) && rowKept(db.textBuilder.textNodes, old(db.textBuilder.textNodes)) && rowKept(db.actionStack, old(db.actionStack)) && db.document == old(db.document) && db.textBuilder == old(db.textBuilder)
+//@   ensures [C02,C07] #only-text-appended onlyTextAppended(db)
 //@   requires wfBuilder(db)
 //@   ensures wfBuilder(db)
 //@   ensures [C01] #pop-is-guarded len(db.actionStack) == old(len(db.actionStack)) - 1 || (old(len(db.actionStack)) == 0 && len(db.actionStack) == 0)
@@ -79,6 +85,7 @@ package webdoc
 //@   assigns_rows db.document.Elements, db.textBuilder.textNodes, db.actionStack
 //@   fresh_assigns webdoc.Text.*, webdoc.BaseElement.*, webdoc.Table.*, webdoc.ElementAction.*, maps, elems(string), elems(ref), cell(Ref), cell(Slice)
 //@   ensures #rows-kept rowKept(db.document.Elements, old(db.document.Elements)) && rowKept(db.textBuilder.textNodes, old(db.textBuilder.textNodes)) && rowKept(db.actionStack, old(db.actionStack)) && db.document == old(db.document) && db.textBuilder == old(db.textBuilder)
+//@   ensures [C02,C07] #only-text-appended onlyTextAppended(db)
 //@   requires wfBuilder(db) && canAdd(db.textBuilder.textNodes, textNode) && inTreeOf(db.textBuilder, textNode)
 //@   ensures wfBuilder(db)
 //@   ensures [C03] #flush-only-if-pending implies(!old(db.flush), len(db.document.Elements) == old(len(db.document.Elements)))
@@ -88,6 +95,7 @@ package webdoc
 //@   assigns_rows db.document.Elements, db.textBuilder.textNodes, db.actionStack
 //@   fresh_assigns webdoc.Text.*, webdoc.BaseElement.*, webdoc.Table.*, webdoc.ElementAction.*, maps, elems(string), elems(ref), cell(Ref), cell(Slice)
 //@   ensures #rows-kept rowKept(db.document.Elements, old(db.document.Elements)) && rowKept(db.textBuilder.textNodes, old(db.textBuilder.textNodes)) && rowKept(db.actionStack, old(db.actionStack)) && db.document == old(db.document) && db.textBuilder == old(db.textBuilder)
+//@   ensures [C02,C07] #only-text-appended onlyTextAppended(db)
 //@   requires wfBuilder(db) && canAdd(db.textBuilder.textNodes, br) && inTreeOf(db.textBuilder, br)
 //@   ensures wfBuilder(db)
 //@   ensures [C03] #flush-only-if-pending implies(!old(db.flush), len(db.document.Elements) == old(len(db.document.Elements)))
@@ -97,6 +105,7 @@ package webdoc
 //@   assigns_rows db.document.Elements, db.textBuilder.textNodes, db.actionStack
 //@   fresh_assigns webdoc.Text.*, webdoc.BaseElement.*, webdoc.Table.*, webdoc.ElementAction.*, maps, elems(string), elems(ref), cell(Ref), cell(Slice)
 //@   ensures #rows-kept rowKept(db.document.Elements, old(db.document.Elements)) && rowKept(db.textBuilder.textNodes, old(db.textBuilder.textNodes)) && rowKept(db.actionStack, old(db.actionStack)) && db.document == old(db.document) && db.textBuilder == old(db.textBuilder)
+//@   ensures [C02,C07] #text-then-tag textThenOne(db, tag)
 //@   requires wfBuilder(db) && tag != nil
 //@   ensures wfBuilder(db)
 //@   ensures [C07] #tag-appended len(db.document.Elements) >= 1 && db.document.Elements[len(db.document.Elements)-1] == tag
@@ -106,6 +115,7 @@ package webdoc
 //@   assigns_rows db.document.Elements, db.textBuilder.textNodes, db.actionStack
 //@   fresh_assigns webdoc.Text.*, webdoc.BaseElement.*, webdoc.Table.*, webdoc.ElementAction.*, maps, elems(string), elems(ref), cell(Ref), cell(Slice)
 //@   ensures #rows-kept rowKept(db.document.Elements, old(db.document.Elements)) && rowKept(db.textBuilder.textNodes, old(db.textBuilder.textNodes)) && rowKept(db.actionStack, old(db.actionStack)) && db.document == old(db.document) && db.textBuilder == old(db.textBuilder)
+//@   ensures [C02] #text-then-embed textThenOne(db, embed)
 //@   requires wfBuilder(db) && embed != nil
 //@   ensures wfBuilder(db)
 //@   ensures len(db.document.Elements) >= 1 && db.document.Elements[len(db.document.Elements)-1] == embed
